@@ -251,3 +251,24 @@ package clickhouse_planner
 //@   check bytes-over-time: result1 == nil && l.Func == "bytes_over_time" ==> typeis(col, "*sql.RawObject") && rawText(col) == "toFloat64(sum(length(_string)))"
 //@   loop 1:
 //@     modifies elems(cols)
+
+// ---------------------------------------------------------------- comparison threshold, drop (C08, C07)
+
+// `expr OP number` keeps the buckets whose value compares with the threshold
+// under the SQL comparison of the same name.
+//@ func (*ComparisonPlanner).Process [C08]
+//@   modifies havingArgs, ctx.id
+//@   check one-threshold: result1 == nil ==> len(havingArgs) == 1
+//@   check gt: result1 == nil && c.Fn == ">" ==> cmpIs(havingArgs[0], ">")
+//@   check lt: result1 == nil && c.Fn == "<" ==> cmpIs(havingArgs[0], "<")
+//@   check ge: result1 == nil && c.Fn == ">=" ==> cmpIs(havingArgs[0], ">=")
+//@   check le: result1 == nil && c.Fn == "<=" ==> cmpIs(havingArgs[0], "<=")
+//@   check eq: result1 == nil && c.Fn == "==" ==> cmpIs(havingArgs[0], "==")
+//@   check neq: result1 == nil && c.Fn == "!=" ==> cmpIs(havingArgs[0], "!=")
+//@   check threshold-operand: result1 == nil ==> typeis(unbox(havingArgs[0], "*sql.LogicalOp").clauses[0], "*sql.RawObject") && unbox(unbox(havingArgs[0], "*sql.LogicalOp").clauses[0], "*sql.RawObject").val == "value" && typeis(unbox(havingArgs[0], "*sql.LogicalOp").clauses[1], "*sql.FloatVal") && unbox(unbox(havingArgs[0], "*sql.LogicalOp").clauses[1], "*sql.FloatVal").val == c.Param
+
+// `drop a, b="x"`: a label pair survives only if it passes EVERY drop clause
+// (the clauses are and-ed).
+//@ func (mapDropFilter).genFilterFn [C07]
+//@   flag checks=-index
+//@   at strings.Join every-drop-clause-applies: arg1 == " and "
